@@ -7,7 +7,7 @@ ap = argparse.ArgumentParser()
 ap.add_argument("--id", required=True); ap.add_argument("--prop", required=True); ap.add_argument("--patch", required=True)
 ap.add_argument("--demo", action="append", default=[]); ap.add_argument("--pkg", default="")
 ap.add_argument("--run", default="Test"); ap.add_argument("--needs", default=""); ap.add_argument("--checks", default="")
-ap.add_argument("--tests", default="vivid"); ap.add_argument("--demo-timeout", default="600"); ap.add_argument("--tags", default="")
+ap.add_argument("--tests", default="vivid"); ap.add_argument("--demo-timeout", default="600"); ap.add_argument("--tags", default=""); ap.add_argument("--race", action="store_true")
 a = ap.parse_args()
 ENV = dict(os.environ, GOFLAGS="-mod=mod", GOPROXY="off", GOSUMDB="off", GOTOOLCHAIN="local")
 W = "/tmp/seedval-%d" % os.getpid()
@@ -30,7 +30,7 @@ try:
             else:
                 dst = os.path.join(W, a.pkg, "zz_seed_" + os.path.basename(d))
                 shutil.copy(d, dst)
-                rc, o = sh("timeout %s go test -count=1 -vet=off %s -run '%s' %s" % (a.demo_timeout, ("-tags " + a.tags) if a.tags else "", a.run, a.pkg), cwd=W)
+                rc, o = sh("timeout %s go test -count=1 -vet=off %s %s -run '%s' %s" % (a.demo_timeout, "-race" if a.race else "", ("-tags " + a.tags) if a.tags else "", a.run, a.pkg), cwd=W)
                 os.remove(dst)
             rc_all |= (1 if rc else 0)
             out.append(o[-1500:])
